@@ -103,6 +103,19 @@ Definition property (sc : scen) (o : obs) : verdict :=
         end
     | None => true
     end in
+  (* 3 (cont.): when nobody else shuts the connection down (one Close call, the peer sends only
+     well-formed frames and stays connected, no idle limit in play, no injected write failure) the
+     Close call itself performs the shutdown: it does not return as a mere loser of the CAS while
+     accepted packets may still be queued *)
+  let p3c :=
+    match sc_closers sc, o_closeres o with
+    | [true], [1] =>
+        negb ((sc_failafter sc <? 0) && (sc_readtimeout sc =? 0) && negb (has_rst sc)
+              && Nat.eqb (length (input_frames sc)) (length (sc_input sc))
+              && (o_stuck o =? 0) && (o_inconcl o =? 0) && (o_panics o =? 0))
+        || negb (Nat.eqb (count_ev 3 0 31 (o_events o)) 0)
+    | _, _ => true
+    end in
   (* 4: the stream ends, and on a frame boundary *)
   let p4 := (negb (clean && (o_eof o =? 1)) || (o_garbage o =? 0)) && (o_nofin o =? 0)
             (* ... with EOF, not with a reset, when the peer sent nothing after (or at all before) the
@@ -133,7 +146,7 @@ Definition property (sc : scen) (o : obs) : verdict :=
     end in
   vjoin (check_that p1 (VPropFail 1))
  (vjoin (check_that p2 (VPropFail 2))
- (vjoin (check_that (p3 && p3b) (VPropFail 3))
+ (vjoin (check_that (p3 && p3b && p3c) (VPropFail 3))
  (vjoin (check_that p4 (VPropFail 4))
  (vjoin (check_that p5 (VPropFail 5))
         (check_that p6 (VPropFail 6)))))).
